@@ -129,51 +129,77 @@ Definition apply_cache (c : cache N) (xs : list N) : res (list N) :=
   else Err FellOffEnd (* Unmodelled interpolation kind *).
 
 (* ---- loading_at(pressure, branch, interpolation_type, interp_fill, pressure_unit, pressure_mode,
-                   loading_unit, loading_basis, material_unit, material_basis) : new state (cache) and result *)
+                   loading_unit, loading_basis, material_unit, material_basis): first (re)build the cached interpolator when its
+        key differs, then convert the query, interpolate with the cache, convert the answer *)
+Definition ensure_l_cache (s : iso) (branch kind : option string) (fill : fillv N) : sres iso iso :=
+  if cache_fresh (l_interpolator s) branch kind fill then SOk s
+  else sbind s (iso_pressure s branch None None None) (fun xs =>
+       sbind s (iso_loading s branch None None None None None) (fun ys =>
+       sbind s (build_cache xs ys branch kind fill) (fun c => SOk (set_l_interpolator (Some c) s)))).
+Definition loading_at_with (s1 : iso) (pressure : list N) (pu pm lu lb mu mb : option string) : res (list N) :=
+  bind (if ostr_truthy pm || ostr_truthy pu then
+          let pm' := or_default pm (pressure_mode s1) in
+          if ostr_eqb pm' (Some "absolute") && negb (ostr_truthy pu) then Err ParameterError
+          else bind (iso_temperature N s1) (fun T =>
+               conv_col (fun x => c_pressure N x pm' (pressure_mode s1) pu (pressure_unit s1) (iso_adsorbate s1) (Some T)) pressure)
+        else Ok pressure) (fun p1 =>
+  bind (match l_interpolator s1 with Some c => apply_cache c p1 | None => Err AttributeError end) (fun l0 =>
+  let mat_req := ostr_truthy mb || ostr_truthy mu in
+  bind (if mat_req then
+          conv_col (fun x => c_material N x (material_basis s1) (or_default mb (material_basis s1)) (material_unit s1) mu (iso_material s1)) l0
+        else Ok l0) (fun l1 =>
+  if ostr_truthy lb || ostr_truthy lu then
+    bind (iso_temperature N s1) (fun T =>
+      conv_col (fun x => c_loading N x (loading_basis s1) (or_default lb (loading_basis s1)) (loading_unit s1) lu
+                           (iso_adsorbate s1) (Some T) (material_basis s1) (material_unit s1)) l1)
+  else Ok l1))).
 Definition iso_loading_at (s : iso) (pressure : list N) (branch kind : option string) (fill : fillv N)
     (pu pm lu lb mu mb : option string) : sres iso (iso * list N) :=
-  mbind (if cache_fresh (l_interpolator s) branch kind fill then SOk s
-         else sbind s (iso_pressure s branch None None None) (fun xs =>
-              sbind s (iso_loading s branch None None None None None) (fun ys =>
-              sbind s (build_cache xs ys branch kind fill) (fun c => SOk (set_l_interpolator (Some c) s))))) (fun s1 =>
-  sbind s1 (if ostr_truthy pm || ostr_truthy pu then
-              let pm' := or_default pm (pressure_mode s1) in
-              if ostr_eqb pm' (Some "absolute") && negb (ostr_truthy pu) then Err ParameterError
-              else bind (iso_temperature N s1) (fun T =>
-                   conv_col (fun x => c_pressure N x pm' (pressure_mode s1) pu (pressure_unit s1) (iso_adsorbate s1) (Some T)) pressure)
-            else Ok pressure) (fun p1 =>
-  sbind s1 (match l_interpolator s1 with Some c => apply_cache c p1 | None => Err AttributeError end) (fun l0 =>
-  let mat_req := ostr_truthy mb || ostr_truthy mu in
-  sbind s1 (if mat_req then
-              conv_col (fun x => c_material N x (material_basis s1) (or_default mb (material_basis s1)) (material_unit s1) mu (iso_material s1)) l0
-            else Ok l0) (fun l1 =>
-  sbind s1 (if ostr_truthy lb || ostr_truthy lu then
-              bind (iso_temperature N s1) (fun T =>
-                conv_col (fun x => c_loading N x (loading_basis s1) (or_default lb (loading_basis s1)) (loading_unit s1) lu
-                                     (iso_adsorbate s1) (Some T) (material_basis s1) (material_unit s1)) l1)
-            else Ok l1) (fun l2 => SOk (s1, l2)))))).
+  mbind (ensure_l_cache s branch kind fill) (fun s1 =>
+  sbind s1 (loading_at_with s1 pressure pu pm lu lb mu mb) (fun l => SOk (s1, l))).
 
 (* ---- pressure_at(loading, ...) *)
+Definition ensure_p_cache (s : iso) (branch kind : option string) (fill : fillv N) : sres iso iso :=
+  if cache_fresh (p_interpolator s) branch kind fill then SOk s
+  else sbind s (iso_loading s branch None None None None None) (fun xs =>
+       sbind s (iso_pressure s branch None None None) (fun ys =>
+       sbind s (build_cache xs ys branch kind fill) (fun c => SOk (set_p_interpolator (Some c) s)))).
+Definition pressure_at_with (s1 : iso) (loading : list N) (pu pm lu lb mu mb : option string) : res (list N) :=
+  let mat_req := ostr_truthy mb || ostr_truthy mu in
+  bind (if mat_req then
+          if negb (ostr_truthy mu) then Err ParameterError
+          else conv_col (fun x => c_material N x (or_default mb (material_basis s1)) (material_basis s1) mu (material_unit s1) (iso_material s1)) loading
+        else Ok loading) (fun l1 =>
+  bind (if ostr_truthy lb || ostr_truthy lu then
+          if negb (ostr_truthy lu) then Err ParameterError
+          else bind (iso_temperature N s1) (fun T =>
+            conv_col (fun x => c_loading N x (or_default lb (loading_basis s1)) (loading_basis s1) lu (loading_unit s1)
+                                 (iso_adsorbate s1) (Some T) (material_basis s1) (material_unit s1)) l1)
+        else Ok l1) (fun l2 =>
+  bind (match p_interpolator s1 with Some c => apply_cache c l2 | None => Err AttributeError end) (fun p0 =>
+  if ostr_truthy pm || ostr_truthy pu then
+    bind (iso_temperature N s1) (fun T =>
+      conv_col (fun x => c_pressure N x (pressure_mode s1) (or_default pm (pressure_mode s1)) (pressure_unit s1) pu (iso_adsorbate s1) (Some T)) p0)
+  else Ok p0))).
 Definition iso_pressure_at (s : iso) (loading : list N) (branch kind : option string) (fill : fillv N)
     (pu pm lu lb mu mb : option string) : sres iso (iso * list N) :=
-  mbind (if cache_fresh (p_interpolator s) branch kind fill then SOk s
-         else sbind s (iso_loading s branch None None None None None) (fun xs =>
-              sbind s (iso_pressure s branch None None None) (fun ys =>
-              sbind s (build_cache xs ys branch kind fill) (fun c => SOk (set_p_interpolator (Some c) s))))) (fun s1 =>
-  let mat_req := ostr_truthy mb || ostr_truthy mu in
-  sbind s1 (if mat_req then
-              if negb (ostr_truthy mu) then Err ParameterError
-              else conv_col (fun x => c_material N x (or_default mb (material_basis s1)) (material_basis s1) mu (material_unit s1) (iso_material s1)) loading
-            else Ok loading) (fun l1 =>
-  sbind s1 (if ostr_truthy lb || ostr_truthy lu then
-              if negb (ostr_truthy lu) then Err ParameterError
-              else bind (iso_temperature N s1) (fun T =>
-                conv_col (fun x => c_loading N x (or_default lb (loading_basis s1)) (loading_basis s1) lu (loading_unit s1)
-                                     (iso_adsorbate s1) (Some T) (material_basis s1) (material_unit s1)) l1)
-            else Ok l1) (fun l2 =>
-  sbind s1 (match p_interpolator s1 with Some c => apply_cache c l2 | None => Err AttributeError end) (fun p0 =>
-  sbind s1 (if ostr_truthy pm || ostr_truthy pu then
-              bind (iso_temperature N s1) (fun T =>
-                conv_col (fun x => c_pressure N x (pressure_mode s1) (or_default pm (pressure_mode s1)) (pressure_unit s1) pu (iso_adsorbate s1) (Some T)) p0)
-            else Ok p0) (fun p1 => SOk (s1, p1)))))).
+  mbind (ensure_p_cache s branch kind fill) (fun s1 =>
+  sbind s1 (pressure_at_with s1 loading pu pm lu lb mu mb) (fun p => SOk (s1, p))).
+
+(* ---- spreading_pressure_at(pressure, branch, units..., interp_fill): OUTCOME only (the value is the subject of C11).
+        The range guard consults whatever interpolator happens to be cached (pointisotherm.py:1249-1251). *)
+Fixpoint lmax (d : N) (l : list N) : N := match l with [] => d | x :: r => let m := lmax d r in if nltb m x then x else m end.
+Fixpoint lmin (d : N) (l : list N) : N := match l with [] => d | x :: r => let m := lmin d r in if nltb x m then x else m end.
+Definition iso_spreading_outcome (s : iso) (p : N) (branch : option string) (fill : fillv N)
+    (pu pm lu lb mu mb : option string) : sres iso (iso * Datatypes.unit) :=
+  sbind s (iso_pressure s branch pu pm None) (fun ps =>
+  sbind s (iso_loading s branch lu lb mu mb None) (fun ls =>
+  match ps with
+  | [] => SErr ValueError s
+  | p0 :: _ =>
+    let guard := match l_interpolator s with Some c => match c_fill c with FNone => true | _ => false end | None => false end in
+    if guard && (nltb (lmax p0 ps) p || nltb p (lmin p0 ps)) then SErr CalculationError s
+    else if Nat.eqb (length (filter (fun x => nltb x p) ps)) 0 then SOk (s, tt)   (* Henry segment: henry_const * p *)
+    else mbind (iso_loading_at s [p] branch (Some "linear") fill pu pm lu lb mu mb) (fun '(s1, _) => SOk (s1, tt))
+  end)).
 End Access.
